@@ -241,6 +241,21 @@ def safe_repr(x):
         return "<unreprable %s>" % type(x).__name__
 
 
+def contains_unprintable(v, depth=0):
+    """True when v is, or holds, an instance of one of the classes the `badrepr` inputs define (their __repr__ raises)."""
+    import re
+    if depth > 6:
+        return False
+    t = type(v)
+    if re.fullmatch(r"B\d+", t.__name__) and "__repr__" in t.__dict__:
+        return True
+    if t in (list, tuple, set, frozenset):
+        return any(contains_unprintable(x, depth + 1) for x in v)
+    if t is dict:
+        return any(contains_unprintable(x, depth + 1) for kv in v.items() for x in kv)
+    return False
+
+
 def same(a, b):
     if a is None or b is None:
         return a is None and b is None
@@ -340,10 +355,15 @@ class Lockstep:
             failed = outcome[0] == "exc"
             repr_failed = False
             if not failed and outcome[1] is not None:
-                try:
-                    exp_out += self.output_fn(outcome[1]) + "\n"
-                except Exception:
+                if contains_unprintable(outcome[1]):
+                    # decided structurally, not by calling the printer: the oracle must not share the printer's
+                    # process-global state (cycle / quoting bookkeeping) with the REPL under test
                     repr_failed = True
+                else:
+                    try:
+                        exp_out += self.output_fn(outcome[1]) + "\n"
+                    except Exception:
+                        repr_failed = True
             if failed:
                 self.results.append(("fail",))
                 sub = inp.get("sub")
